@@ -175,3 +175,21 @@ def aim(margin_fn, shift_fn, d_rate, target, iters=8):
             break
         tau += err / rate
     return tau
+
+
+def exotic(arr, rng):
+    """the same values in an unusual memory layout: Fortran order, a non-contiguous view, or read-only.  The library's
+    answers must not depend on the layout, and a read-only input exposes any attempt to write into the caller's array."""
+    a = np.array(arr, copy=True)
+    r = rng.random()
+    if r < 0.3:
+        a = np.asfortranarray(a)
+    elif r < 0.6 and a.ndim == 2:
+        wide = np.zeros((a.shape[0], a.shape[1] * 2), a.dtype)
+        wide[:, ::2] = a
+        a = wide[:, ::2]  # non-contiguous view
+    elif r < 0.8 and a.ndim >= 1:
+        a = a[::-1][::-1]
+    a = a.view()
+    a.setflags(write=False)
+    return a
